@@ -19,9 +19,10 @@ theorem dispatch_ECH (ps : List Nat) (p : Bool) : csiDispatch 88 ps p = [.eraseC
 
 /-! #### the dispatch table of the crate, by translation -/
 
-/-- the crate's dispatch of ED, EL, ECH, as probed on the compiled crate, and no `private` argument other than `None` reaches ED / EL -/
+/-- the crate's dispatch of ED, EL, ECH, as probed on the compiled crate (the `private` argument is C03's business:
+    `Screen` ignores it for ED / EL) -/
 theorem dispatch_probes :
-    Probes.csiOk (Probes.slice Gen.CSI_PROBES [Gen.ED, Gen.EL, Gen.ECH]) = true ∧ Gen.PRIVATE_FORWARDED = false := by
+    Probes.csiOk (Probes.slice Gen.CSI_PROBES [Gen.ED, Gen.EL, Gen.ECH]) = true := by
   decide +kernel
 
 /-- non-vacuity: the slice is not empty -/
